@@ -842,6 +842,7 @@ def cursor_fetchone(I, cursor: SObj):
         return SNone
     _, r, cond = rows
     found = fresh_bool("row_found")
+    I.st.emit("sql_fetchone", table=stmt.table, found=found)
     if I.st.branch(found):
         I.st.assume(cond)
         row = new_row(I, stmt, tab, r)
